@@ -14,7 +14,8 @@ import vlib
 
 NAMES = ["a", "b", "key", "1", "2", "3", "4", " a ", " 2 ", "new", "x y", "5", "01"]
 VALS = ["v", "", " ", "a|b", "a=b", "x\n", "\n y ", "{{t|u}}", "[[l|m]]", "{{t|u}}|w", "a=b|c=d", "  pad  ", "q=", "|", "=",
-        "{{x}}={{y}}", "[[a|b]]=c", "<b>k=v</b>|z", "&#124;", "w\n\n"]
+        "{{x}}={{y}}", "[[a|b]]=c", "<b>k=v</b>|z", "&#124;", "w\n\n", "http://example.com/?a=b", "see [http://x.org/?q=1 t]", "==h==", "\n== t ==\n",
+        "[//a.b/c?d=e]", "x http://e.org/?a=b&c=d y"]
 TPLS = ["{{t}}", "{{t|a}}", "{{t|a|b}}", "{{t|a=1|b=2}}", "{{t|x|k=v|y}}", "{{t| a = 1 | b = 2 }}", "{{t|\n a = 1\n| b = 2\n}}",
         "{{t|1=a|2=b}}", "{{t|a|2=b|c}}", "{{t|a=1|a=2}}", "{{t||}}", "{{t|a|b|c|d}}", "{{t|2=x|y}}", "{{t|a|a=z|b}}", "{{t|1=p|q}}",
         "{{t|b|1=dup}}", "{{t| 1 = s|u}}"]
@@ -72,6 +73,19 @@ def one_history(seed):
             fail = "the template does not render as a single template before the call"
             break
         before_names = [str(p.name).strip() for p in r0.params]
+        if rng.random() < 0.05:
+            nm = rng.choice(NAMES)
+            if t.has(nm) and not NUM.match(nm.strip()):
+                before_txt = str(t)
+                try:
+                    t.add(nm, "zz", showkey=False)
+                    fail = "add(%r, showkey=False) hid a key that is not a positive integer" % nm
+                except ValueError:
+                    if str(t) != before_txt:
+                        fail = "add(%r, showkey=False) raised ValueError but changed the template: %r -> %r" % (nm, before_txt, str(t))
+                if fail:
+                    break
+            continue
         if rng.random() < 0.6:
             name, val, ps = rng.choice(NAMES), rng.choice(VALS), rng.random() < 0.7
             hist.append(("add", name, val, ps))
@@ -84,11 +98,13 @@ def one_history(seed):
             if NUM.match(name.strip()) or "|" in val or "=" in val:
                 touched_positional = True
             newv = 1000 + len(ops)
+            if any(type(n).__name__ in ("ExternalLink", "Heading") and "=" in str(n) for n in M.parse(val).nodes):
+                newv = -(2000 + len(ops))       # the model's "unescapable '='" values
             vids[id(par.value)] = newv
             ops += [0, name_id(name, table), newv]
             if not t.has(name):
                 fail = "has() is false after add"
-            elif norm(t.get(name).value) != norm(val):
+            elif norm(t.get(name).value) != norm(val) and str(t.get(name).value).strip() != val.strip():
                 fail = "get() finds %r after adding %r" % (norm(t.get(name).value), norm(val))
         else:
             name, kf = rng.choice(NAMES), rng.random() < 0.4
@@ -144,6 +160,7 @@ def _work(seeds):
 
 def run(tier, seed):
     c = vlib.Check("C10", tier, seed, "proof")
+    vlib.pure_python_parser()
     c.prove("C10.v")
     n = 20000 if tier == "quick" else 1000000
     seeds = [seed * 19000013 + i for i in range(n)]
